@@ -347,7 +347,7 @@ func check(c Case, st *rig.Stats) error {
 }
 
 var stats = rig.NewStats("C05",
-	"rapid draws a route table history (Router/Prefix/Resource, hostile Remove arguments), a Hosts add/delete history, a version list, 1-8 requests whose method, path, Host and Accept are hostile constants ('' '*' 70000-byte and non-UTF-8 paths, malformed host:port forms, junk media types), arbitrary bytes or paths derived from the table, and 1-5 pattern strings (arbitrary, brace/colon/regexp-meta soup, a valid pattern with one injected fault, valid) with params maps. Requests go through Router.ServeHTTP, Group.ServeHTTP (Hosts / And / Or / header-version / path-version matchers in front of the populated router), Hosts.Match and both version matchers; patterns through CheckSyntax, mux.URL, Router.URL and Prefix.URL (strict and not), Handle on a fresh interceptor-free router (must panic iff CheckSyntax fails) and on the populated one. Oracle: nothing panics except Handle / Hosts.Add with an error value that is not a runtime.Error. Non-trivial: a request with path '' or '*', non-UTF-8 or over-long path or a method outside the nine, or a pattern containing a brace; distinct by hash of the case",
+	"rapid draws a route table history (Router/Prefix/Resource, hostile Remove arguments), a Hosts add/delete history, a version list, 1-8 requests whose method, path, Host and Accept are hostile constants ('' '*' 70000-byte and non-UTF-8 paths, malformed host:port forms, junk media types), arbitrary bytes or paths derived from the table, and 1-5 pattern strings (arbitrary, brace/colon/regexp-meta soup, a valid pattern with one injected fault, valid) with params maps. Requests go through Router.ServeHTTP, Group.ServeHTTP (Hosts / And / Or / header-version / path-version matchers in front of the populated router), Hosts.Match and both version matchers; patterns through CheckSyntax, mux.URL, Router.URL and Prefix.URL (strict and not), Handle on a fresh interceptor-free router (must panic iff CheckSyntax fails) and on the populated one. Oracle: nothing panics except Handle / Hosts.Add with an error value that is not a runtime.Error. Non-trivial: a request with path '' or '*', non-UTF-8 or over-long path or a method outside the nine, or a pattern containing a brace; distinct by hash of the case. Later additions to the generated domain: The router also gets a CORS list of a dozen origins and ten headers, Origin values that sort before / behind / between the listed ones, and a header-version matcher that uses the default error log.",
 	"user handlers never panic in this check, so every recovered value is the library's")
 
 func init() { log.SetOutput(io.Discard) }
